@@ -36,9 +36,9 @@ Print Assumptions C17_memory_guard_tight.
    represents the abstract final state (FsRel: every name resolves to the
    abstract value, objects/index/config/shallow/reflogs are equal, no empty
    reference file, packed-refs well formed), on every history that passes
-   fs_ok call by call:
+   fs_ok call by call; the only guarded call is
      CheckAndSetReference  a reference file exists, or the packed value matches old
-     PackRefs              no loose reference is symbolic *)
+   (PackRefs is unguarded since it keeps symbolic references loose) *)
 Theorem C17_filesystem_refines_partial : forall U ops,
   fs_guards U fs_empty ops = true ->
   FsRel (fst (run_ops (fs_step U) fs_empty ops)) (fst (run_ops (spec_sstep U) st_empty ops))
@@ -83,16 +83,14 @@ Proof.
 Qed.
 Print Assumptions C17_filesystem_refuted_cas.
 
-(* filesystem: PackRefs with a loose symbolic reference corrupts packed-refs *)
-Theorem C17_filesystem_refuted_packrefs :
-  exists ops, ~ Forall2 res_equiv (answers (fs_step U1) fs_empty ops) (answers (spec_sstep U1) st_empty ops).
-Proof.
-  exists [SBase (OSetRef 0 (RHash 0)); SBase (OSetRef 1 (RSym 0)); SPackRefs; SBase (OGetRef 1)].
-  vm_compute. intro H.
-  inversion H as [|? ? ? ? _ H2]; subst. inversion H2 as [|? ? ? ? _ H3]; subst.
-  inversion H3 as [|? ? ? ? _ H4]; subst. inversion H4 as [|? ? ? ? HP _]; subst. discriminate.
-Qed.
-Print Assumptions C17_filesystem_refuted_packrefs.
+(* the former PackRefs witness (a loose symbolic reference used to be written
+   into packed-refs as an unparsable line) now behaves like the abstract store *)
+Example C17_packrefs_witness_repaired :
+  let ops := [SBase (OSetRef 0 (RHash 0)); SBase (OSetRef 1 (RSym 0)); SPackRefs;
+              SBase (OGetRef 0); SBase (OGetRef 1); SBase OIterRefs; SBase (ODelRef 0); SBase OIterRefs] in
+  fs_guards U1 fs_empty ops = true
+  /\ map o_res (answers (fs_step U1) fs_empty ops) = map o_res (answers (spec_sstep U1) st_empty ops).
+Proof. vm_compute. split; reflexivity. Qed.
 
 (* the two backends answer the same calls differently: after a refused
    CheckAndSetReference on an absent name the filesystem storer cannot list *)
@@ -108,7 +106,7 @@ Print Assumptions C17_backends_agree_refuted.
    packed-only reference and a removal passes both guards *)
 Example C17_guards_nonvacuous :
   let ops := [SBase (OSetRef 0 (RHash 0)); SBase (OSetRef 2 (RHash 1)); SPackRefs;
-              SBase (OCas 0 (RHash 2) 0 (RHash 0)); SBase (OSetRef 1 (RSym 0)); SBase OIterRefs;
+              SBase (OCas 0 (RHash 2) 0 (RHash 0)); SBase (OSetRef 1 (RSym 0)); SPackRefs; SBase OIterRefs;
               SBase (ODelRef 2); SBase (OGetRef 2); SBase (OSetObj 3); SAddPack [3; 4]; SBase (OIterObjs 0);
               SBase (OSetIdx 2); SBase (OSetCfg 1); SBase (OSetShallow [4]); SBase (OAppendLog 0 5);
               SReopen; SBase (OGetLog 0); SBase (OCas 1 (RHash 3) 1 (RSym 2))] in
